@@ -26,16 +26,16 @@ TRUSTED = ['Model/RefIndex.v is hand-written; it is compared with the running co
            'not by proof']
 ASSUMPTIONS = ['cell values are None, ints, lists of ints or strings (what column.convert yields for user-action input)',
                'C10_removal assumes an exact reverse index for every column of the world (proved for every history of '
-               'set/unset/copy_from_column/growto on a new column; false after BaseColumn.clear, see known findings)']
+               'set/unset/copy_from_column/growto/clear on a new column: inverse_map_exact)']
 TECHNIQUE = ('Coq invariant proof over an executable model of the reference columns and their reverse index + three '
              'levels of differential correspondence with the running code (vm_compute) + implementation oracles on histories')
 LEVEL_TEXT = ('Kernel-checked theorems, for all op sequences, worlds and removal histories: the reverse index '
-              '(ReferenceRelation.inverse_map) equals the reverse of the cells after any clear-free sequence of column '
-              'operations; with exact indexes doBulkRemoveRecord never fails and leaves every referring cell equal to the '
-              'old cell with exactly the removed ids filtered out in order ([] -> None, Ref -> 0), so no cell refers to a '
-              'removed row, and the hypotheses hold again afterwards. The two ways the unchanged code escapes this '
-              '(BaseColumn.clear keeps the relation; ReplaceTableData removes rows without cleanup) are proved as '
-              'counterexamples and reported as known findings.')
+              '(ReferenceRelation.inverse_map) equals the reverse of the cells after ANY sequence of column operations '
+              '(set, unset, copy_from_column, growto, clear); with exact indexes doBulkRemoveRecord never fails and leaves '
+              'every referring cell equal to the old cell with exactly the removed ids filtered out in order ([] -> None, '
+              'Ref -> 0), so no cell refers to a removed row, and the hypotheses hold again afterwards. The old clear '
+              '(repaired by 474dc3f) survives as regression examples; that ReplaceTableData removes rows without the '
+              'cleanup is proved as a counterexample and reported as a known finding.')
 LEVEL_NOTE = ('Trusted: Coq kernel, the hand-written model (validated differentially on every run), the string hack '
               'as an uninterpreted function. The glue in useractions.py (which paths call the cleanup) is covered by the '
               'history oracle only.')
@@ -43,10 +43,10 @@ LEVEL_NOTE = ('Trusted: Coq kernel, the hand-written model (validated differenti
 logging.disable(logging.CRITICAL)
 
 IMPORTS = ['Grist.Model.RefIndex']
-# Which model of BaseColumn.clear the correspondence uses: 'false' = the code as it is (clear keeps the relation:
-# known finding C10-clear-keeps-reverse-index), 'true' = after notes/proposed_fixes/C10-clear-resets-relation.diff
-# (then inverse_map_exact_with_fixed_clear is the theorem that applies, and the known-finding entry goes away).
-CLEAR_FIXED = 'false'
+# Which model of clear the correspondence uses: 'true' = BaseReferenceColumn.clear also clears the relation (the code
+# since /repo commit 474dc3f; Model `run`), 'false' = the old BaseColumn.clear that kept it (Model `run_old`, finding
+# C10-clear-keeps-reverse-index, now 'fixed'; only the regression Examples of Props/C10.v still speak about it).
+CLEAR_FIXED = 'true'
 
 
 def K():
@@ -278,7 +278,7 @@ STREAMS = {
   'main': dict(weights={'summary': 1}, undo_prob=0.12),     # summary tables: auto-removal of empty groups
   'replace': dict(weights={'replacedata': 9, 'rmrec': 12, 'refupd': 8}, undo_prob=0.0),
 }
-KNOWN_KINDS = ('replace_table_data_leaves_references', 'stale_index_after_replace_table_data')
+KNOWN_KINDS = ('replace_table_data_leaves_references',)
 
 
 def run_pass(ctx, stream, n_hist, nb):
@@ -357,7 +357,22 @@ def correspond(ctx):
     ctx.broken('correspondence:RefIndex.remove_rows differs from the engine on a record removal', worlds[i][1])
 
 
+def fixed_corpus(ctx):
+  """Witnesses of repaired defects stay in the corpus and are run first: a regression is a violation again."""
+  for k in core.load_known():
+    if k['property'] == ID and k.get('kind') == 'fixed' and k.get('witness'):
+      try:
+        d = replay(ctx, k['witness'])
+      except Exception as ex:      # pylint: disable=broad-except
+        d = 'replay raised %r' % (ex,)
+      ctx.count(('fixed', k['id']), nontrivial=True, kind='fixed-witness:' + ('fails-again' if d else 'holds'))
+      if d:
+        ctx.violation(k.get('violation_kind') or 'regression',
+                      'repaired by %s, fails again: %s' % (k.get('commit'), d), k['witness'])
+
+
 def search(ctx):
+  fixed_corpus(ctx)
   ps = passes(ctx)
   seen = set()
   for name in ('main', 'replace'):
